@@ -445,4 +445,188 @@ theorem descendingEig_spec {d : Eig12 ℝ} {m : M6 ℝ} (h : IsEigSys d m) :
   obtain ⟨e2, o2, o2'⟩ := s2 _ e1 o1
   exact s3 _ e2 o2 o2'
 
+/-! ### exact cases and non-vacuity: every hypothesis used above is met by concrete matrices -/
+
+/-- a diagonal matrix is returned unchanged with the identity as eigenvectors (exact decomposition) -/
+theorem diagM_diagonal (a b c : ℝ) :
+    diagM (⟨a, 0, 0, b, 0, c⟩ : M6 ℝ) = .ok ⟨a, b, c, 1, 0, 0, 0, 1, 0, 0, 0, 1⟩ ∧
+    IsEigSys ⟨a, b, c, 1, 0, 0, 0, 1, 0, 0, 0, 1⟩ (⟨a, 0, 0, b, 0, c⟩ : M6 ℝ) :=
+  ⟨diagM_diagonal' a b c, isEigSys_diag a b c⟩
+
+/-- non-vacuity of `diagM_orthonormal` -/
+example : Orthonormal (⟨2, 3, 5, 1, 0, 0, 0, 1, 0, 0, 0, 1⟩ : Eig12 ℝ) :=
+  diagM_orthonormal _ _ (diagM_diagonal 2 3 5).1
+
+theorem logM_diag (a b c : ℝ) :
+    logM (⟨a, 0, 0, b, 0, c⟩ : M6 ℝ) = .ok ⟨Real.log a, 0, 0, Real.log b, 0, Real.log c⟩ := by
+  unfold logM; rw [diagM_diagonal' a b c]
+  show Except.ok (formM (⟨Real.log a, Real.log b, Real.log c, 1, 0, 0, 0, 1, 0, 0, 0, 1⟩ : Eig12 ℝ)) = _
+  rw [formM_diag]
+
+theorem expM_diag (a b c : ℝ) :
+    expM (⟨a, 0, 0, b, 0, c⟩ : M6 ℝ) = .ok ⟨Real.exp a, 0, 0, Real.exp b, 0, Real.exp c⟩ := by
+  unfold expM; rw [diagM_diagonal' a b c]
+  show Except.ok (formM (⟨Real.exp a, Real.exp b, Real.exp c, 1, 0, 0, 0, 1, 0, 0, 0, 1⟩ : Eig12 ℝ)) = _
+  rw [formM_diag]
+
+/-- non-vacuity of `exp_log`: all hypotheses hold for diag(2,3,5) -/
+example : expM (⟨Real.log 2, 0, 0, Real.log 3, 0, Real.log 5⟩ : M6 ℝ) = .ok ⟨2, 0, 0, 3, 0, 5⟩ :=
+  exp_log ⟨2, 0, 0, 3, 0, 5⟩ _ _ _ (diagM_diagonal 2 3 5).1 (diagM_diagonal 2 3 5).2
+    ⟨by norm_num, by norm_num, by norm_num⟩ (logM_diag 2 3 5)
+    (diagM_diagonal (Real.log 2) (Real.log 3) (Real.log 5)).1
+    (diagM_diagonal (Real.log 2) (Real.log 3) (Real.log 5)).2
+
+/-- non-vacuity of `log_exp` (an indefinite matrix) -/
+example : logM (⟨Real.exp (-1), 0, 0, Real.exp 0, 0, Real.exp 7⟩ : M6 ℝ) = .ok ⟨-1, 0, 0, 0, 0, 7⟩ :=
+  log_exp ⟨-1, 0, 0, 0, 0, 7⟩ _ _ _ (diagM_diagonal (-1) 0 7).1 (diagM_diagonal (-1) 0 7).2
+    (expM_diag (-1) 0 7)
+    (diagM_diagonal (Real.exp (-1)) (Real.exp 0) (Real.exp 7)).1
+    (diagM_diagonal (Real.exp (-1)) (Real.exp 0) (Real.exp 7)).2
+
+theorem sqrt4 : Real.sqrt 4 = 2 := by
+  rw [show (4 : ℝ) = 2 * 2 by norm_num]; exact Real.sqrt_mul_self (by norm_num)
+theorem sqrt9 : Real.sqrt 9 = 3 := by
+  rw [show (9 : ℝ) = 3 * 3 by norm_num]; exact Real.sqrt_mul_self (by norm_num)
+
+/-- `sqrt_m` of diag(4, 9, 1) -/
+theorem sqrtM_diag491 :
+    sqrtM (⟨4, 0, 0, 9, 0, 1⟩ : M6 ℝ) = .ok (⟨2, 0, 0, 3, 0, 1⟩, ⟨1 / 2, 0, 0, 1 / 3, 0, 1⟩) := by
+  unfold sqrtM; rw [diagM_diagonal' 4 9 1]
+  have hneg : (Scalar.lt (4 : ℝ) Scalar.zero || Scalar.lt (9 : ℝ) Scalar.zero || Scalar.lt (1 : ℝ) Scalar.zero) = false := by
+    simp [lt_false_iff, zero_eq]
+  simp only [hneg, Bool.false_eq_true, if_false]
+  unfold sqrtTail
+  simp only [mapEig, sqrt_eq, sqrt4, sqrt9, Real.sqrt_one, one_eq, div_eq]
+  have g2 : Scalar.divisible (1 : ℝ) 2 = true := by rw [divisible_iff]; norm_num
+  have g3 : Scalar.divisible (1 : ℝ) 3 = true := by rw [divisible_iff]; norm_num
+  have g1 : Scalar.divisible (1 : ℝ) 1 = true := by rw [divisible_iff]; norm_num
+  simp only [g1, g2, g3, Bool.not_true, Bool.false_eq_true, if_false]
+  rw [formM_diag, formM_diag]
+  norm_num
+
+/-- all inner decompositions are exact for A = diag(4, 9, 1), B = diag(1, 36, 1/4) -/
+theorem innerExact_example :
+    InnerExact (⟨4, 0, 0, 9, 0, 1⟩ : M6 ℝ) ⟨1, 0, 0, 36, 0, 1 / 4⟩ ⟨2, 0, 0, 3, 0, 1⟩ ⟨1 / 2, 0, 0, 1 / 3, 0, 1⟩
+      ⟨4, 9, 1, 1, 0, 0, 0, 1, 0, 0, 0, 1⟩ ⟨1 / 2 * 1 * (1 / 2), 1 / 3 * 36 * (1 / 3), 1 * (1 / 4) * 1, 1, 0, 0, 0, 1, 0, 0, 0, 1⟩ := by
+  refine ⟨(diagM_diagonal 4 9 1).1, (diagM_diagonal 4 9 1).2, sqrtM_diag491, ?_, ?_⟩
+  · rw [multM0M1M0_diag]; exact diagM_diagonal' _ _ _
+  · rw [multM0M1M0_diag]; exact isEigSys_diag _ _ _
+
+/-- non-vacuity of the intersect theorems: the hypotheses hold and the result is diag(4, 36, 1) -/
+example : intersect (⟨4, 0, 0, 9, 0, 1⟩ : M6 ℝ) ⟨1, 0, 0, 36, 0, 1 / 4⟩ = .ok ⟨4, 0, 0, 36, 0, 1⟩ := by
+  unfold intersect; rw [sqrtM_diag491]
+  dsimp only
+  unfold combine
+  dsimp only
+  rw [multM0M1M0_diag, diagM_diagonal']
+  dsimp only
+  simp only [mapEig, cmax_eq, one_eq]
+  rw [formM_diag, multM0M1M0_diag]
+  norm_num
+
+
+/-- non-vacuity of `intersect_ge_left/right`, `intersect_spd`: instantiate with the exact example -/
+example (x : Vec3 ℝ) : vtMv (⟨4, 0, 0, 9, 0, 1⟩ : M6 ℝ) x ≤ vtMv (⟨4, 0, 0, 36, 0, 1⟩ : M6 ℝ) x ∧
+    vtMv (⟨1, 0, 0, 36, 0, 1 / 4⟩ : M6 ℝ) x ≤ vtMv (⟨4, 0, 0, 36, 0, 1⟩ : M6 ℝ) x := by
+  have h : intersect (⟨4, 0, 0, 9, 0, 1⟩ : M6 ℝ) ⟨1, 0, 0, 36, 0, 1 / 4⟩ = .ok ⟨4, 0, 0, 36, 0, 1⟩ := by
+    unfold intersect; rw [sqrtM_diag491]
+    dsimp only
+    unfold combine
+    dsimp only
+    rw [multM0M1M0_diag, diagM_diagonal']
+    dsimp only
+    simp only [mapEig, cmax_eq, one_eq]
+    rw [formM_diag, multM0M1M0_diag]
+    norm_num
+  exact ⟨intersect_ge_left innerExact_example h x, intersect_ge_right innerExact_example h x⟩
+
+/-- non-vacuity of `bound_le_left/right`: the same pair gives diag(1, 9, 1/4) -/
+example (x : Vec3 ℝ) : vtMv (⟨1, 0, 0, 9, 0, 1 / 4⟩ : M6 ℝ) x ≤ vtMv (⟨4, 0, 0, 9, 0, 1⟩ : M6 ℝ) x ∧
+    vtMv (⟨1, 0, 0, 9, 0, 1 / 4⟩ : M6 ℝ) x ≤ vtMv (⟨1, 0, 0, 36, 0, 1 / 4⟩ : M6 ℝ) x := by
+  have hnn : (0 : ℝ) ≤ 4 ∧ (0 : ℝ) ≤ 9 ∧ (0 : ℝ) ≤ 1 := ⟨by norm_num, by norm_num, by norm_num⟩
+  have h : bound (⟨4, 0, 0, 9, 0, 1⟩ : M6 ℝ) ⟨1, 0, 0, 36, 0, 1 / 4⟩ = .ok ⟨1, 0, 0, 9, 0, 1 / 4⟩ := by
+    unfold bound
+    rw [sqrtAbsM_eq_sqrtM _ _ (diagM_diagonal' 4 9 1) hnn, sqrtM_diag491]
+    dsimp only
+    unfold combine
+    dsimp only
+    rw [multM0M1M0_diag, diagM_diagonal']
+    dsimp only
+    simp only [mapEig, cmin_eq, one_eq]
+    rw [formM_diag, multM0M1M0_diag]
+    norm_num
+  exact ⟨bound_le_left innerExact_example h x, bound_le_right innerExact_example h x⟩
+
+/-- non-vacuity of `sqrt_sq` / `sqrt_invsqrt` -/
+example : (⟨2, 0, 0, 3, 0, 1⟩ : M6 ℝ).toMat * (⟨2, 0, 0, 3, 0, 1⟩ : M6 ℝ).toMat = (⟨4, 0, 0, 9, 0, 1⟩ : M6 ℝ).toMat :=
+  sqrt_sq _ _ _ _ (diagM_diagonal 4 9 1).1 (diagM_diagonal 4 9 1).2 sqrtM_diag491
+
+/-- non-vacuity of `descendingEig_spec` -/
+example : (descendingEig (⟨2, 5, 3, 1, 0, 0, 0, 1, 0, 0, 0, 1⟩ : Eig12 ℝ)).l1 ≤
+    (descendingEig (⟨2, 5, 3, 1, 0, 0, 0, 1, 0, 0, 0, 1⟩ : Eig12 ℝ)).l0 :=
+  (descendingEig_spec (isEigSys_diag 2 5 3)).2.1
+
+/-- non-vacuity of `diagM2_spec`: the hypothesis is met by every matrix -/
+example : ∃ d, diagM2 (⟨2, 1, 2⟩ : M3 ℝ) = .ok d ∧ Orthonormal2 d ∧ formM2 d = ⟨2, 1, 2⟩ := by
+  obtain ⟨d, h⟩ := diagM2_total ⟨2, 1, 2⟩
+  exact ⟨d, h, diagM2_spec _ _ h⟩
+
+/-- the rotation branch of the first rotation is taken for m12 = 3, m13 = 4 (L = 5) -/
+example : (rot0 (⟨1, 3, 4, 2, 0, 5⟩ : M6 ℝ)).e0 = 5 := by
+  have h5 : Real.sqrt (3 * 3 + 4 * 4) = 5 := by
+    rw [show (3 * 3 + 4 * 4 : ℝ) = 5 * 5 by norm_num]; exact Real.sqrt_mul_self (by norm_num)
+  unfold rot0
+  simp only [mul_eq, add_eq, sqrt_eq, h5]
+  have g3 : Scalar.divisible (3 : ℝ) 5 = true := by rw [divisible_iff]; norm_num
+  have g4 : Scalar.divisible (4 : ℝ) 5 = true := by rw [divisible_iff]; norm_num
+  simp only [g3, g4, Bool.and_self, if_true]
+
+/-- `det_m` of diag(2, 3, 5) -/
+example : detM (⟨2, 0, 0, 3, 0, 5⟩ : M6 ℝ) = 30 := by
+  unfold detM detGen3 mFull
+  have g0 : Scalar.divisible (0 : ℝ) 2 = true := by rw [divisible_iff]; norm_num
+  simp only [Vec3.axmy, one_eq, zero_eq, mul_eq, sub_eq, div_eq, g0, Bool.not_true, Bool.false_eq_true, if_false]
+  have g1 : Scalar.divisible ((0 : ℝ) - 0 / 2 * 0) (3 - 0 / 2 * 0) = true := by rw [divisible_iff]; norm_num
+  simp only [g1, Bool.not_true, Bool.false_eq_true, if_false]
+  norm_num
+
+
+theorem dvt (n d : ℝ) : Scalar.divisible n d = decide (|n| < 10 ^ 20 * |d|) := by
+  unfold Scalar.divisible
+  rw [cabs_eq, cabs_eq, mul_eq, ofDec_eq, abs_mul]
+  have : |((1 : ℤ) : ℝ) * (10 : ℝ) ^ (20 : ℤ)| = 10 ^ 20 := by norm_num
+  rw [this]; rfl
+
+theorem step0 : invStep 0 (mFull (⟨2, 1, 0, 2, 0, 1⟩ : M6 ℝ), M33.identity) =
+    .ok (⟨⟨1, 1 / 2, 0⟩, ⟨0, 3 / 2, 0⟩, ⟨0, 0, 1⟩⟩, ⟨⟨1 / 2, 0, 0⟩, ⟨-(1 / 2), 1, 0⟩, ⟨0, 0, 1⟩⟩) := by
+  have p0 : pivotRow 0 (⟨⟨2, 1, 0⟩, ⟨1, 2, 0⟩, ⟨0, 0, 1⟩⟩ : M33 ℝ) = 0 := by
+    simp [pivotRow, Scalar.bgt, cabs_eq, lt_iff]
+  norm_num [invStep, swapStep, p0, scaleRow, elimOthers, elimRow, mFull, M33.identity, Vec3.allDivisible,
+    Vec3.divBy, Vec3.axmy, dvt]
+
+theorem step1 : invStep 1 ((⟨⟨1, 1 / 2, 0⟩, ⟨0, 3 / 2, 0⟩, ⟨0, 0, 1⟩⟩ : M33 ℝ), (⟨⟨1 / 2, 0, 0⟩, ⟨-(1 / 2), 1, 0⟩, ⟨0, 0, 1⟩⟩ : M33 ℝ)) =
+    .ok (⟨⟨1, 0, 0⟩, ⟨0, 1, 0⟩, ⟨0, 0, 1⟩⟩, ⟨⟨2 / 3, -(1 / 3), 0⟩, ⟨-(1 / 3), 2 / 3, 0⟩, ⟨0, 0, 1⟩⟩) := by
+  have p0 : pivotRow 1 (⟨⟨1, 1 / 2, 0⟩, ⟨0, 3 / 2, 0⟩, ⟨0, 0, 1⟩⟩ : M33 ℝ) = 1 := by
+    simp [pivotRow, Scalar.bgt, cabs_eq, lt_iff]
+  norm_num [invStep, swapStep, p0, scaleRow, elimOthers, elimRow, Vec3.allDivisible,
+    Vec3.divBy, Vec3.axmy, dvt]
+
+theorem step2 : invStep 2 ((⟨⟨1, 0, 0⟩, ⟨0, 1, 0⟩, ⟨0, 0, 1⟩⟩ : M33 ℝ), (⟨⟨2 / 3, -(1 / 3), 0⟩, ⟨-(1 / 3), 2 / 3, 0⟩, ⟨0, 0, 1⟩⟩ : M33 ℝ)) =
+    .ok (⟨⟨1, 0, 0⟩, ⟨0, 1, 0⟩, ⟨0, 0, 1⟩⟩, ⟨⟨2 / 3, -(1 / 3), 0⟩, ⟨-(1 / 3), 2 / 3, 0⟩, ⟨0, 0, 1⟩⟩) := by
+  have p0 : pivotRow 2 (⟨⟨1, 0, 0⟩, ⟨0, 1, 0⟩, ⟨0, 0, 1⟩⟩ : M33 ℝ) = 2 := pivotRow_two _
+  norm_num [invStep, swapStep, p0, scaleRow, elimOthers, elimRow, Vec3.allDivisible,
+    Vec3.divBy, Vec3.axmy, dvt]
+
+/-- non-vacuity of `invM_mul`: a non-diagonal matrix goes through pivot search, guards and elimination -/
+theorem invM_example : invM (⟨2, 1, 0, 2, 0, 1⟩ : M6 ℝ) = .ok ⟨2 / 3, -(1 / 3), 0, 2 / 3, 0, 1⟩ := by
+  unfold invM invGen3
+  rw [step0]; dsimp only
+  rw [step1]; dsimp only
+  rw [step2]; rfl
+
+
+/-- the inverse found above is indeed the inverse (instance of `invM_mul`) -/
+example : (⟨2 / 3, -(1 / 3), 0, 2 / 3, 0, 1⟩ : M6 ℝ).toMat * (⟨2, 1, 0, 2, 0, 1⟩ : M6 ℝ).toMat = 1 :=
+  (invM_mul _ _ invM_example).1
+
 end Refine.Props.C16
